@@ -7,7 +7,7 @@
    LIBRARIES disagree (5.0 for an int, null elements, int vs float64 in interface{}) is library
    behaviour outside this development: decided on the implementation by decoding the same bytes
    through both paths (correspondence run), with the recorded findings D15/D32 as guards. *)
-From GJS Require Import Base Regex Schema GoType Gen Exec Valid ExecP.
+From GJS Require Import Base Regex Schema GoType Render Gen Exec Valid ExecP PlanP.
 
 Theorem C17_methods_agree : forall decf decf' zf dvf fs under vs j,
   (forall t x, decf t x = decf' t x) -> run_method decf zf dvf fs under vs j = run_method decf' zf dvf fs under vs j.
@@ -19,3 +19,24 @@ Theorem C17_validators_format_free : forall decf decf' raw j v,
   (forall t x, decf t x = decf' t x) -> before_step decf raw j v = before_step decf' raw j v.
 Proof. exact before_step_ext. Qed.
 Print Assumptions C17_validators_format_free.
+
+(* "the model has ONE method layout" is checked on every run: the checks of the emitted UnmarshalJSON and of the emitted UnmarshalYAML of
+   every declared type are read off the text and compared, line by line and in order, with [Render.plan_lines] of the model's validator
+   list (the plan tie).  What that comparison is worth: two validator lists with the same signatures ([Render.vsig_of], what the lines
+   print) and the same residue (default literal, pattern, anyOf branch types) give the same method - same verdict, same value - on
+   every document, for every component decoder. *)
+Theorem C17_plan_determines_method : forall decf zf dvf fs under vs1 vs2 j,
+  Forall2 same_plan vs1 vs2 -> run_method decf zf dvf fs under vs1 j = run_method decf zf dvf fs under vs2 j.
+Proof. exact plan_determines_method. Qed.
+Print Assumptions C17_plan_determines_method.
+
+Theorem C17_plan_lines : forall fs vs1 vs2, Forall2 same_plan vs1 vs2 -> plan_lines fs vs1 = plan_lines fs vs2.
+Proof. exact same_plan_lines. Qed.
+Print Assumptions C17_plan_lines.
+
+Theorem C17_plan_inhabited :
+  let v1 := VNumeric [78%N] [110%N] false false None (Bounds.mkBounds (Some (3 # 1)%Q) None (Some (Bounds.ExBool true)) None) in
+  let v2 := VNumeric [78%N] [110%N] false false None (Bounds.mkBounds None None (Some (Bounds.ExNum (3 # 1)%Q)) None) in
+  v1 <> v2 /\ same_plan v1 v2.
+Proof. exact plan_inhabited. Qed.
+Print Assumptions C17_plan_inhabited.
